@@ -288,11 +288,13 @@ def load(mutations=None):
 
 
 _GLOBALS0 = []      # (module dict, name, pristine deep copy) of module-level lists/dicts/sets
+_CLASSATTR0 = []    # (class, name, pristine deep copy) of mutable class attributes (shared by all instances)
 
 
 def _snapshot_module_globals(mods):
     import copy
     del _GLOBALS0[:]
+    del _CLASSATTR0[:]
     for m in mods.values():
         for k, v in list(m.__dict__.items()):
             if k.startswith('__'):
@@ -302,6 +304,13 @@ def _snapshot_module_globals(mods):
                     _GLOBALS0.append((m.__dict__, k, copy.deepcopy(v)))
                 except Exception:
                     pass
+            elif isinstance(v, type) and getattr(v, '__module__', None) == m.__name__:
+                for ak, av in list(vars(v).items()):
+                    if not ak.startswith('__') and isinstance(av, (list, dict, set)):
+                        try:
+                            _CLASSATTR0.append((v, ak, copy.deepcopy(av)))
+                        except Exception:
+                            pass
 
 
 def clear_caches():
@@ -322,6 +331,18 @@ def clear_caches():
             cur.update(v0)
         else:
             d[k] = copy.deepcopy(v0)
+    for (cls, k, v0) in _CLASSATTR0:
+        cur = vars(cls).get(k)
+        if isinstance(cur, list) and isinstance(v0, list):
+            cur[:] = copy.deepcopy(v0)
+        elif isinstance(cur, dict) and isinstance(v0, dict):
+            cur.clear()
+            cur.update(copy.deepcopy(v0))
+        elif isinstance(cur, set) and isinstance(v0, set):
+            cur.clear()
+            cur.update(v0)
+        else:
+            setattr(cls, k, copy.deepcopy(v0))
 
 
 class _MutatingFinder:
